@@ -257,7 +257,7 @@ func c08ValueCases(c *Ctx, run bool) (n int) {
 		case anyType:
 			return aw
 		case opType:
-			return []namedValue{{"Eq", reflect.ValueOf(stackage.Eq)}, {"nil-op", reflect.Zero(opType)}, nv("userOp{}", userOp{}), nv("ComparisonOperator(200)", stackage.ComparisonOperator(200))}
+			return []namedValue{{"Eq", reflect.ValueOf(stackage.Eq)}, {"nil-op", reflect.Zero(opType)}, nv("userOp{}", userOp{}), nv("ComparisonOperator(200)", stackage.ComparisonOperator(200)), nv("sliceOp", sliceOp{"=~", "ctx"})}
 		case intType:
 			return []namedValue{nv("0", 0), nv("-1", -1), nv("99", 99)}
 		}
